@@ -126,6 +126,11 @@ def make_env(prog: Program):
             _constrain_index(env, s)
     if prog.assume is not None:
         env.assume(*prog.assume(env))
+    if "dropna=False" in prog.text or "dropna=False" in str(prog.note):
+        # the missing group label is modelled as the label 2**40: source values stay below it (stated bound)
+        for t in env.tags.values():
+            v = t[4]
+            env.assume(v < 2 ** 39, v > -(2 ** 39))
     return env, frames
 
 
@@ -1329,8 +1334,17 @@ def _same_task(a, b):
             return a.keys() == b.keys() and all(_same_task(a[k], b[k]) for k in a)
         if isinstance(a, (pd.DataFrame, pd.Series, pd.Index)):
             return a.equals(b)
+        if isinstance(a, np.ndarray):
+            if a.shape != b.shape:
+                return False
+            try:
+                return bool(np.array_equal(a, b, equal_nan=True))
+            except TypeError:
+                return bool(np.array_equal(a, b))
         r = a == b
-        return bool(r) if isinstance(r, (bool, np.bool_)) else True
+        if isinstance(r, (bool, np.bool_)):
+            return bool(r)
+        return bool(np.all(r)) if hasattr(r, "__len__") or hasattr(r, "all") else True
     except Exception:
         return True
 
